@@ -19,6 +19,12 @@ pub enum DOp {
     Check,
     Clear,
     Fork,
+    /// a scratch digest of another configuration with a few inserts still pending in its backlog
+    /// is overwritten with `Clone::clone_from(&d)`; the run continues on the copy
+    CloneFromInto { delta: f64, backlog: usize, pending: u8 },
+    /// an insert the library must reject (documented panic: weight negative / NaN / infinite);
+    /// the caller recovers and keeps using the digest, which must not have changed
+    Rejected(f64, f64),
 }
 
 #[derive(Clone, Debug, Serialize, Deserialize)]
@@ -583,6 +589,38 @@ impl<'a> Exec<'a> {
                     self.check_empty(d.as_ref(), "C19", "after clear()");
                     self.check_empty(d.as_ref(), "C15", "after clear()");
                 }
+                DOp::CloneFromInto { delta, backlog, pending } => {
+                    let mut scratch = build_digest(case.scale, delta, backlog);
+                    for j in 0..pending {
+                        scratch.insert_weighted(1e6 + j as f64, 2.5);
+                    }
+                    if scratch.clone_from_dyn(d.as_ref()) {
+                        self.stats.fault("fork");
+                        self.stats.probe("clone_from_onto_pending_backlog");
+                        d = scratch;
+                        since_compact = 0;
+                        // every oracle now applies to the copy: aggregates here, the rest at the next check point
+                        self.check_aggregates(d.as_ref(), &a, "after clone_from onto a digest with a pending backlog");
+                    }
+                }
+                DOp::Rejected(x, w) => {
+                    let before = (d.is_empty(), d.min().to_bits(), d.max().to_bits());
+                    let target = &mut d;
+                    match guarded(|| target.insert_weighted(x, w)) {
+                        Caught::LibPanic(..) => self.stats.probe("rejected_insert_panicked"),
+                        Caught::Ok(()) => {
+                            // accepted after all (w = -0.0 counts as zero weight): nothing to compare
+                            self.stats.probe("rejected_insert_accepted");
+                        }
+                    }
+                    let after = (d.is_empty(), d.min().to_bits(), d.max().to_bits());
+                    if before != after && !(w >= 0.0 && w.is_finite() && w > 0.0) {
+                        self.viol.push(v("C16", format!("tdigest/{}/rejected-insert-changed-state", self.sname), self.step,
+                            format!("insert_weighted({}, {}) was rejected, yet is_empty/min/max changed from {:?} to {:?}", x, w, before, after)));
+                    }
+                    self.check_aggregates(d.as_ref(), &a, "after a rejected insert");
+                    since_compact = 0;
+                }
                 DOp::Fork => {
                     self.stats.fault("fork");
                     let g = d.fork();
@@ -804,6 +842,8 @@ impl Scenario for S4 {
         check_at.sort();
         let zero_rate = if prop == "C16" || prop == "C15" { *g.pick(&[0u64, 0, 10, 100]) } else { 0 };
         let restart_at = if prop != "C04" && g.chance(1, 3) { Some(g.usize(n)) } else { None };
+        let clone_from_at = if g.chance(1, 4) { Some(g.usize(n)) } else { None };
+        let rejected_at = if prop == "C16" && g.chance(1, 5) { Some(g.usize(n)) } else { None };
         let mut ops = Vec::with_capacity(n + n / 4 + 8);
         for (i, &x) in vals.iter().enumerate() {
             if weighted {
@@ -836,6 +876,12 @@ impl Scenario for S4 {
             }
             if prop != "C04" && g.chance(1, 4000) {
                 ops.push(if g.chance(1, 2) { DOp::Clear } else { DOp::Fork });
+            }
+            if clone_from_at == Some(i) {
+                ops.push(DOp::CloneFromInto { delta: *g.pick(&DELTAS), backlog: *g.pick(&[0usize, 3, 17, 1000]), pending: g.below(6) as u8 });
+            }
+            if rejected_at == Some(i) {
+                ops.push(DOp::Rejected(g.normal() * 1e4, *g.pick(&[-1.0, f64::NAN, f64::INFINITY, -1e-300, f64::NEG_INFINITY])));
             }
             // C16 / C15: one restart in the middle of a third of the runs, after a read has compacted
             if restart_at == Some(i) {
